@@ -14,8 +14,57 @@ def fpaths(prog, f, cap=20000, prune=True):
     key = (id(prog), f.qualname, cap, prune)
     if key not in _PATH_CACHE:
         paths = enum_paths(f.node.body, cap=cap, prune=prune)
-        _PATH_CACHE[key] = [walk_path(p) for p in paths]
+        pfs = [walk_path(p) for p in paths]
+        _PATH_CACHE[key] = [pf for pf in pfs if not infeasible(pf)]
     return _PATH_CACHE[key]
+
+
+TYPE_CONSTS = {"object", "int", "float", "complex", "str", "bool", "np.int64", "np.uint64", "np.int32", "np.float64", "np.object_"}
+
+
+def _const_alts(e):
+    """set of type-constant names an expression can evaluate to, or None"""
+    d = dotted(e)
+    if d in TYPE_CONSTS:
+        return {d}
+    if isinstance(e, ast.IfExp):
+        a, b = _const_alts(e.body), _const_alts(e.orelse)
+        if a is not None and b is not None:
+            return a | b
+    return None
+
+
+def static_truth(test):
+    """True/False when a (substituted) guard is decided by constant propagation, else None:
+    T == T for type constants; `x is None` for literal None / literal non-None."""
+    if isinstance(test, ast.UnaryOp) and isinstance(test.op, ast.Not):
+        v = static_truth(test.operand)
+        return None if v is None else (not v)
+    if isinstance(test, ast.Compare) and len(test.ops) == 1:
+        l, op, r = test.left, test.ops[0], test.comparators[0]
+        if isinstance(op, (ast.Eq, ast.NotEq)):
+            a, b = _const_alts(l), _const_alts(r)
+            if a is not None and b is not None:
+                if len(a) == 1 and a == b:
+                    return isinstance(op, ast.Eq)
+                if not (a & b):
+                    return isinstance(op, ast.NotEq)
+        if isinstance(op, (ast.Is, ast.IsNot)) and isinstance(r, ast.Constant) and r.value is None:
+            if isinstance(l, ast.Constant):
+                return (l.value is None) == isinstance(op, ast.Is)
+            if isinstance(l, (ast.List, ast.Tuple, ast.Dict, ast.BinOp)):
+                return isinstance(op, ast.IsNot)
+    if isinstance(test, ast.Call) and dotted(test.func) == "isinstance" and len(test.args) == 2 and dotted(test.args[1]) == "object":
+        return True
+    return None
+
+
+def infeasible(pf):
+    for g in pf.guards:
+        v = static_truth(g[0])
+        if v is not None and v != g[1]:
+            return True
+    return False
 
 
 def self_rename(d):
@@ -96,6 +145,71 @@ def guard_assignment(guards, rename=self_rename):
     return out
 
 
+def guard_cases(guards, rename=self_rename, cap=16):
+    """Assignments (list of {atom: Term}) that together cover the conjunction of the path's guards:
+    each guard is expanded to a disjunction of literal conjunctions; a literal that is a bare boolean symbol
+    fixes it to 0/1, `sym == const` taken true fixes the symbol, anything else contributes no information."""
+    cases = [dict()]
+
+    def lits(test, pol):
+        """DNF of (test == pol) as list of conjunctions (lists of (kind, atom, value))"""
+        if isinstance(test, ast.UnaryOp) and isinstance(test.op, ast.Not):
+            return lits(test.operand, not pol)
+        if isinstance(test, ast.BoolOp):
+            is_or = isinstance(test.op, ast.Or)
+            parts = [lits(v, pol) for v in test.values]
+            if is_or == pol:
+                # disjunction
+                out = []
+                for p_ in parts:
+                    out.extend(p_)
+                return out
+            # conjunction: cross product
+            out = [[]]
+            for p_ in parts:
+                out = [a + b for a in out for b in p_]
+            return out
+        try:
+            t = mkbool(test, rename)
+        except NotATerm:
+            return [[]]
+        if len(t.m) == 1:
+            (mono, c), = t.m.items()
+            if c == 1 and len(mono) == 1 and mono[0][0][0] == "b":
+                return [[(mono[0][0], Term.const(1 if pol else 0))]]
+        if isinstance(test, ast.Compare) and len(test.ops) == 1 and isinstance(test.ops[0], (ast.Eq, ast.NotEq)):
+            is_eq = isinstance(test.ops[0], ast.Eq)
+            if is_eq == pol:
+                try:
+                    l = mkterm(test.left, rename)
+                    r = mkterm(test.comparators[0], rename)
+                except NotATerm:
+                    return [[]]
+                for a, b in ((l, r), (r, l)):
+                    if b.is_const() and len(a.m) == 1:
+                        (mono, c), = a.m.items()
+                        if c == 1 and len(mono) == 1 and mono[0][1] == 1 and mono[0][0][0] == "v":
+                            return [[(mono[0][0], b)]]
+        return [[]]
+
+    for g in guards:
+        alts = lits(g[0], g[1])
+        new = []
+        for c in cases:
+            for conj in alts:
+                c2 = dict(c)
+                okc = True
+                for atom, val in conj:
+                    if atom in c2 and c2[atom] != val:
+                        okc = False
+                        break
+                    c2[atom] = val
+                if okc and c2 not in new:
+                    new.append(c2)
+        cases = new[:cap] if new else cases
+    return cases
+
+
 # --------------------------------------------------------------------------- cast peeling
 
 INT_TYPES = {"int", "np.int64", "np.uint64", "np.int32", "np.int_", "np.intp", "'int'", "'int64'", "'uint64'", "np.integer"}
@@ -117,7 +231,7 @@ def peel(expr, casts=None):
                 casts.append(("np.array", src(dt) if dt is not None else None))
                 expr = expr.args[0]
                 continue
-            if fn == "utils.int_array" and expr.args:
+            if fn in ("utils.int_array", "int_array") and expr.args:
                 casts.append(("int_array", "int"))
                 expr = expr.args[0]
                 continue
